@@ -366,7 +366,7 @@ def finding_key(kind, name, two_d):
     if two_d and kind in ('noxz', 'xonly'):
         return KEY_FIRST_2D
     if not two_d and kind == 'nox':
-        return KEY_FIRST_1D
+        return KEY_FIRST_1D       # repaired by f1bf5e1 (a `fixed:` line): a hit is a VIOLATION again
     if name == 'adaptive_minmax':
         return KEY_AMM
     return None
@@ -534,29 +534,32 @@ def model_cases(ctx):
         run_case_group(ctx, kind, name, 2, scheds, lits, meta, True)
         if full:
             run_case_group(ctx, kind, name, 3, schedules_for(ctx, kind, name, 3, steps, 0, ctx.n(3, 20)), lits, meta, True)
+    first_call_cases(ctx, lits, meta)
     return coq_check(ctx, lits, meta, 'safe')
 
 
-def refuted_cases(ctx):
-    """The two refuted regions: every schedule is still replayed and compared with the model (which models
-    the current code), and the deviations are reported under their finding keys."""
-    lits, meta = [], []
-    ctx.known_replayed = {KEY_FIRST_1D, KEY_FIRST_2D, KEY_AMM}
-    ctx.broken_before = len(ctx.broken)
+def first_call_cases(ctx, lits, meta):
+    """First concurrent calls on a Baseline created without x_data: SAFE since f1bf5e1 (C04_first_call_safe);
+    strict correspondence, and the schedule that failed before the repair is always replayed."""
     for name in ('poly', 'modpoly', 'pspline_asls', 'rubberband'):
         ser = serial_reference('nox', name, 1)
         steps = len(codes(ser['events'][0]))
-        scheds = schedules_for(ctx, 'nox', name, 2, steps, ctx.n(4, 6) if name == 'poly' else 2, ctx.n(3, 20))
+        scheds = [[0, 0, 1, 1]] + schedules_for(ctx, 'nox', name, 2, steps, ctx.n(4, 6) if name == 'poly' else 2, ctx.n(3, 20))
         run_case_group(ctx, 'nox', name, 2, scheds, lits, meta, True)
     run_case_group(ctx, 'nox', 'poly', 3, schedules_for(ctx, 'nox', 'poly', 3, 20, 0, ctx.n(5, 40)), lits, meta, True)
-    bad_a = coq_check(ctx, lits, meta, 'refuted-first-call', tolerate=True)
+
+
+def refuted_cases(ctx):
+    """The refuted region adaptive_minmax: every schedule is still replayed and compared with the model
+    (which models the current code), and the deviations are reported under the finding key."""
     lits, meta = [], []
+    ctx.known_replayed = {KEY_FIRST_2D, KEY_AMM}
     ser = serial_reference('x', 'adaptive_minmax', 1)
     steps = len(codes(ser['events'][0]))
     scheds = schedules_for(ctx, 'x', 'adaptive_minmax', 2, steps, 2, ctx.n(6, 40))
     run_case_group(ctx, 'x', 'adaptive_minmax', 2, scheds, lits, meta, True)
     run_case_group(ctx, 'warm:5', 'adaptive_minmax', 2, scheds[::4], lits, meta, True)
-    return coq_check(ctx, lits, meta, 'refuted-adaptive-minmax', tolerate=True) or bad_a
+    return coq_check(ctx, lits, meta, 'refuted-adaptive-minmax', tolerate=True)
 
 
 def oracle(ctx, budget):
